@@ -12,7 +12,7 @@ import itertools, os, random
 from . import common as C, proggen as P
 
 PROP = "C07"
-MODULES = ["RuschmProofs.C07", "RuschmProofs.BuiltinTable"]
+MODULES = ["RuschmProofs.C07", "RuschmProofs.BuiltinTable", "RuschmProofs.C07Files"]
 ALPHA20 = list("()'.#\";|\\+-1ae/t,` ") + ["\n"]
 SANITY = "((lambda (x) x) 42)"
 VOCAB = ["(", ")", "(", ")", "'", "#(", ".", "define", "lambda", "if", "set!", "quote", "let", "let*", "cond", "case", "else", "=>",
@@ -213,6 +213,20 @@ def run(rep, tier, rng):
     for L in range(1, toklen + 1):
         for t in itertools.product(TOK8, repeat=L):
             texts.append(("short-tokens", " ".join(t)))
+    # every numeric procedure on every pair of SPECIAL operands (not-a-number and the infinities can only be computed, there is no
+    # literal for them), directly and through apply: a value or a reported error, never a panic
+    specials = ["(sqrt -1)", "(exp 100)", "(- (exp 100))", "-0.0", "0", "1/2", "2147483647", "-2147483648", "1e38", "(- (exp 100) (exp 100))"]
+    unary = ["abs", "floor", "ceiling", "exact", "sqrt", "exp", "ln", "sin", "cos", "tan", "asin", "acos", "atan", "-", "/", "max", "min", "+", "*"]
+    binary = ["+", "-", "*", "/", "max", "min", "=", "<", ">", "<=", ">=", "log", "atan2", "floor-quotient", "floor-remainder", "eqv?"]
+    for op in unary:
+        for a in specials:
+            texts.append(("numeric-specials", "(%s %s)" % (op, a)))
+    for op in binary:
+        for a in specials:
+            for b in specials:
+                texts.append(("numeric-specials", "(%s %s %s)" % (op, a, b)))
+                if op in ("max", "min", "+", "*", "=", "<") and rng.random() < 0.3:
+                    texts.append(("numeric-specials", "(apply %s (list %s %s %s))" % (op, b, rng.choice(specials), a)))
     n_soup = 3000 if tier == "quick" else 80000
     for _ in range(n_soup):
         texts.append(("soup", soup(rng, rng.randrange(1, 25))))
@@ -344,7 +358,7 @@ def main(tier, seed):
     rep = C.Report(PROP, tier, seed)
     rng = random.Random(seed)
     rep.cov["rule"] = ("every string of length 1-4 over a 20-character structural alphabet (exhaustive), every blank-separated sequence of 1-5 "
-                       "(thorough 6) tokens over ( ) . ' #( a 1 \"s\" (exhaustive), random token soup over a "
+                       "(thorough 6) tokens over ( ) . ' #( a 1 \"s\" (exhaustive), every numeric procedure on every pair of special operands (NaN, infinities, -0.0, i32 edges), random token soup over a "
                        "100-token vocabulary (half with balanced parentheses), token-level mutations of generated programs and of the "
                        "bundled grammar.sld/base.sld, random Unicode/control strings, ill-formed program files; each followed by a "
                        "sanity form on the same interpreter; distinct non-trivial = inputs that are not a plain value of the "
